@@ -222,9 +222,9 @@ def run(ctx):
             ts += [dd * DAY, dd * DAY + DAY - 1]
         if (y % 4 == 0 and y % 100 != 0) or y % 400 == 0:
             ts.append(cal.days_from_civil(y, 2, 29) * DAY + 43200)
-    ts += [rng.randrange(0, (LAST_DAY + 1) * DAY) for _ in range(5000 if quick else 300000)]
+    ts += [rng.randrange(0, (LAST_DAY + 1) * DAY) for _ in range(5000 if quick else 1000000)]
     # the statement says "every Unix timestamp": beyond the quantifier's 2199 too - up to year 99999, the five-digit-year boundary, and the i64 / u64 edges
-    far = [rng.randrange((LAST_DAY + 1) * DAY, FAR) for _ in range(1500 if quick else 40000)] + [rng.randrange(FAR, 3093527980800) for _ in range(1500 if quick else 40000)]
+    far = [rng.randrange((LAST_DAY + 1) * DAY, FAR) for _ in range(1500 if quick else 150000)] + [rng.randrange(FAR, 3093527980800) for _ in range(1500 if quick else 150000)]
     far += [FAR - 1, FAR, FAR + 1, FAR + 86399, FAR + 86400 * 366, 3093527980799, 3093527980800, 8210266876799, 8210266876800, 10 ** 13, 2 ** 53, 2 ** 62, 2 ** 63 - 1, 2 ** 63, 2 ** 63 + 1,
             2 ** 64 - 86400, 2 ** 64 - 2, 2 ** 64 - 1]
     ts = sorted(set(ts + far))
@@ -247,14 +247,14 @@ def run(ctx):
     ctx.count("distinct_days", len(set(t // DAY for t in ts)))
     # CLI
     cases = []
-    ncal = 5000 if quick else 50000
+    ncal = 5000 if quick else 200000
     for i in range(ncal):
         t = rng.choice(ts) if rng.random() < 0.7 else rng.randrange(0, (LAST_DAY + 1) * DAY)
         if t >= 3093527980800:
             t = t % 3093527980800        # the CLI cases stay within years 1970..99999 (beyond that the resolver may refuse, see work_grid)
         cases.append(("calver", rng.choice(CALVER), t, rng.choice(["semver", "pep440"]), rng.choice(["bumped", "bumped", "last", "both"]), i % len(STATES)))
     for p in cal.PATTERNS:
-        for i in range(40 if quick else 600):
+        for i in range(40 if quick else 2400):
             cases.append(("ts", p, rng.choice(ts) % 3093527980800, ["bumped", "last", "both"][i % 3]))
     rng.shuffle(cases)
     cparts = core.split_even(cases, 32)
@@ -265,7 +265,7 @@ def run(ctx):
         ctx.count("cli_runs_TZ=" + tz, r["n"])
         for sig, why, c in r["bad"]:
             ctx.refute(sig, why, dict(kind="cli", case=list(c), tz=tz))
-    for r in core.pmap(work_git, [(ctx.bins, "%s/%d" % (ctx.prop, ctx.seed), i, ctx.tmp) for i in range(21 if quick else 210)]):
+    for r in core.pmap(work_git, [(ctx.bins, "%s/%d" % (ctx.prop, ctx.seed), i, ctx.tmp) for i in range(21 if quick else 630)]):
         ctx.evaluations += r["n"]
         ctx.count("cli_runs_git_source", r["n"])
         for sig, why, c in r["bad"]:
